@@ -15,12 +15,12 @@ def main(run: Run) -> int:
     H.LEVEL = 1 if thorough else 0
     n = len(H.cases())
     jobs = []
-    g = {"LEVEL": H.LEVEL, "NPOOL": 6 if thorough else 3, "YMAX": 2 if thorough else 1}
+    g = {"LEVEL": H.LEVEL, "NPOOL": 6 if thorough else 3, "YMAX": 2 if thorough else 1, "YOCC": 3 if thorough else 2}
     cs = H.cases()
 
     def weight(text, flags):
         occ = H.pkg_occurrences(text) if flags & 1 else []
-        return (g["NPOOL"] ** len(set(occ))) * ((g["YMAX"] + 1) ** min(len(occ), 3))
+        return (g["NPOOL"] ** len(set(occ))) * ((g["YMAX"] + 1) ** min(len(occ), g["YOCC"]))
 
     def parts(flags, budget, stride=1):
         lo, acc = 0, 0
@@ -30,7 +30,7 @@ def main(run: Run) -> int:
                 yield lo, i + 1
                 lo, acc = i + 1, 0
 
-    for k, (lo, hi) in enumerate(parts(3, 90)):
+    for k, (lo, hi) in enumerate(parts(3, 60)):
         jobs.append({"fn": "resolve", "globals": dict(g, FLAGS=3, LO=lo, HI=hi), "timeout": 900, "bound": "expressions of this partition x package tables x resolver yields; resolve_packages=True, replace_time_conditions=True"})
     # the other flag combinations: every 3rd partition in the quick tier, all in the thorough tier
     for fl in (1, 2, 0):
@@ -42,7 +42,7 @@ def main(run: Run) -> int:
     for r, j in zip(xh.run_jobs(run, "vf.harness.resolve_harness", jobs), jobs):
         xh.default_verdict(run, r, feats, bound=j["bound"])
     run.bounds["expressions"] = f"{n} well-formed expressions: every 1- and 2-leaf combination of (key, [1P], [2P], [3P0..4], [UB1..3]) with U/O/X, hand-picked 3-leaf shapes (repeated and neighbouring abbreviations, nesting), bare / behind 5 indicator spellings / inside a 3-part AHB expression" + ("; all 3-leaf combinations of 4 leaf kinds" if thorough else "")
-    run.bounds["package_tables"] = f"each occurring package key maps to one of {g['NPOOL']} entries of (simple key, expression containing UB3, unknown, expression containing another package, ...); resolver yields <= {g['YMAX']} per occurrence (symbolic)"
+    run.bounds["package_tables"] = f"each occurring package key maps to one of {g['NPOOL']} entries of (simple key, expression containing UB3, unknown, expression containing another package, ...); resolver yields <= {g['YMAX']} for the first {g['YOCC']} occurrences (symbolic)"
     common_assumptions(run)
     run.outside += ["expressions beyond the stated shapes", "package keys other than 1P/2P/3P (keys are labels for the resolver)"]
     run.sample({"case": "[1P] O [5] U [2P] with {1P: '[10]', 2P: '[UB3] O [13]'} == parse('([10]) O [5] U (([932][492]X[934][493]) O [13])')"})
